@@ -260,3 +260,19 @@ PROPS['C15'] = dict(
     technique='property-based testing (rapidcheck): necessary/sufficient-condition (sandwich) oracle per candidate cell + metamorphic nesting relation between modes',
     assumptions=['polygons narrower than 180 degrees (the wide ones are C07 known findings)'],
 )
+
+PROPS['C16'] = dict(
+    src='props/C16.cpp', variants=['fast', 'asan'], level='exploration', alloc_copy=True,
+    rule=('sets of distinct same-resolution cells: filled disks, disks with 10-50% of the cells removed (holes, islands), alternating distance bands (island inside ring inside ring: nested holes), several components, '
+          'nested rings plus extra components, strips; origins uniform / at pentagons / on the antimeridian / on icosahedron edges; all 16 res, presented in a generated order; complete strata: k=1,2 disks and k=2 rings '
+          'around every cell of res 0..2 (3) and k<=3 around every pentagon of res 3..15. Not generated: sets reaching within 0.27 rad of a pole. '
+          'non-trivial = the outline has a hole or more than one component; distinct by the cell set'),
+    quick=dict(cases={'fast': 30_000, 'asan': 3_000}, enum={'fast': 4}),
+    thorough=dict(cases={'fast': 600_000, 'asan': 40_000}, enum={'fast': 8}),
+    strata=dict(quick=['k=1,2 disks and k=2 rings around all cells res 0..2', 'k<=3 disks/rings around 12 pentagons x res 3..15'], thorough=['all cells res 0..3']),
+    level_text=('polygon count = number of edge-connected components (union-find over geometric adjacency), counter-clockwise outer loops and clockwise holes by signed binary128 spherical area, every loop >=3 vertices, every vertex a boundary vertex of an input cell, '
+                'enclosed area = sum of cell areas, per-polygon areas matching the component areas one to one (hole attached to the right polygon), and a model allocator behind the second library copy: zero live blocks after destroyLinkedMultiPolygon and after any error'),
+    level_note='trusted: geometric neighbour graph, binary128 spherical areas with tolerance 1e-9*area + 1e-12*perimeter (sliver effect of ulp-level vertex mismatch, measured), model allocator; footprints near a pole are not generated (stated narrowing)',
+    technique='property-based testing (rapidcheck): invariants over the produced outline (component count, winding, provenance, area identities) + allocator model',
+    assumptions=['sets stay away from the poles (planar lat/lng polygon model of the library)'],
+)
